@@ -55,6 +55,10 @@ SCHEMES = [
     ("sub",  ["spam", "eggs", "am"], ["spam", "eggs", "am"]),  # 'am' is a substring of 'spam'
     ("many", LETTERS, [LETTERS[1], LETTERS[10], LETTERS[2]]),   # 12 named variables, markers _1 / _10
     ("y",    "y", ["y0", "y1", "y2"]),
+    # names that are also names of numpy / math objects, which simplify star-imports into its evaluation namespace:
+    # functions (a call would raise) and constants (a test point would be ignored)
+    ("lib",  ["gamma", "size", "angle"], ["gamma", "size", "angle"]),
+    ("const", ["pi", "tau", "e"], ["pi", "tau", "e"]),
 ]
 STYLES = ["plain", "dense", "frac"]
 # schemes usable with linear_symbolic / symbolic_bounds (names are positional there)
@@ -564,6 +568,9 @@ def make_jobs(name, hdr, states, seed, thorough):
             picks = [combos[(i * 7 + seed) % len(combos)]]
             if thorough and i % 3 == 0:
                 picks.append(combos[(i * 7 + seed + 11) % len(combos)])
+            if i % 5 == 1:      # every fifth program also under a library-name scheme (functions / constants alternate)
+                libs = [k for k, sc in enumerate(SCHEMES) if sc[0] in ("lib", "const")]
+                picks.append((libs[(i // 5 + seed) % len(libs)], (i // 10) % len(STYLES)))
             for n, (si, sti) in enumerate(picks):
                 tag, vararg, nm = SCHEMES[si]
                 style = STYLES[sti]
